@@ -78,10 +78,22 @@ class Adapter:
             if bool(case['accepts']) != (n == 0) and m['op'] != 'none':
                 res['features'].append('oracle_disagreement')
             raised = None
+            compiler = MalCompiler()
             try:
-                out = MalCompiler().compile(main)
+                out = compiler.compile(main)
             except Exception as e:
                 raised = repr(e)[:200]
+            if n > 0 and raised is not None:
+                # the same compiler object asked again must refuse again (nothing survives a failed compilation)
+                try:
+                    compiler.compile(main)
+                    res['div'].append({'kind': 'divergence', 'action': 'Compile', 'component': 'malformed_source_compiled_on_second_attempt',
+                                       'features': ['op_' + m['op'], 'file_%d' % case['file'], 'layout_' + case['layout']],
+                                       'detail': {'antlr_errors': n, 'mutation': m},
+                                       'case': {'lang': case['lang'], 'layout': case['layout'], 'file': case['file'], 'mut': m},
+                                       'full_case': case, 'adapter': 'harness.replay_mut'})
+                except Exception:
+                    pass
             if n > 0 and raised is None:
                 res['div'].append({'kind': 'divergence', 'action': 'Compile', 'component': 'malformed_source_compiled',
                                    'features': ['op_' + m['op'], 'file_%d' % case['file'], 'layout_' + case['layout']],
